@@ -28,8 +28,8 @@ def age (n : Node) (now : Nat) : Nat := now - n.lastSeen
 /-- `is_stale`: last seen more than `STALE_TIME` ago -/
 def isStale (n : Node) (now : Nat) : Bool := n.age now > secsToNs Constants.STALE_TIME_SECS
 
-/-- `valid_token`: token received `TOKEN_ROTATE_INTERVAL` ago or less -/
-def validToken (n : Node) (now : Nat) : Bool := n.age now ≤ secsToNs Constants.TOKEN_ROTATE_SECS
+/-- `valid_token`: the node gave a token, `TOKEN_ROTATE_INTERVAL` ago or less -/
+def validToken (n : Node) (now : Nat) : Bool := n.token.isSome && n.age now ≤ secsToNs Constants.TOKEN_ROTATE_SECS
 
 /-- `should_ping` -/
 def shouldPing (n : Node) (now : Nat) : Bool := n.age now > secsToNs Constants.MIN_PING_BACKOFF_SECS
